@@ -643,7 +643,43 @@ def simplify(d):
 
 
 def simp_set(ds):
-    out = sorted({_collapse(simplify(d)) for d in ds})
+    out = set()
+    for d in ds:
+        out |= _expand_tokens(_collapse(simplify(d)))
+    return sorted(out)
+
+
+_TOKSET = None
+
+
+def _expand_tokens(text):
+    """`tok{A,B}` - a token that is an A or a B - reads as the two alternatives `tok{A}` and `tok{B}`: whether one call site consumes either
+    type (`_expect(TABLE[kind])`) or two sites consume one each (`if kind == ...: _expect("A") else: _expect("B")`) is the same set of values.
+    (At most 64 combinations per value; beyond that the set is kept as it is.)"""
+    global _TOKSET
+    import itertools
+    import re
+    if _TOKSET is None:
+        _TOKSET = re.compile(r"tok\{([A-Z0-9_]+(?:,[A-Z0-9_]+)+)\}")
+    ms = list(_TOKSET.finditer(text))
+    if not ms:
+        return {text}
+    # occurrences of the same set inside one value denote the same token: they vary together
+    groups = []
+    for m in ms:
+        if m.group(1) not in groups:
+            groups.append(m.group(1))
+    n = 1
+    for g_ in groups:
+        n *= len(g_.split(","))
+    if n > 64:
+        return {text}
+    out = set()
+    for combo in itertools.product(*[g_.split(",") for g_ in groups]):
+        t = text
+        for g_, c in zip(groups, combo):
+            t = t.replace("tok{" + g_ + "}", "tok{" + c + "}")
+        out.add(t)
     return out
 
 
